@@ -616,8 +616,8 @@ def cmp_line(req, impl, model):
     # HashSet iteration order is unspecified: a traversal that fails half-way has applied an
     # order-dependent subset of its effects; equal-name ties of a sorted traversal that follows
     # links are ordered arbitrarily
-    if op in UNORDERED_OPS and io == mo and 'LinkLooping' in io:
-        return 'dead'
+    if op in UNORDERED_OPS and io == mo and io.startswith('err'):
+        return 'dead'     # same error, but which entries were processed before it depends on the set order
     if op in UNORDERED_OPS and 'LinkLooping' in io and 'LinkLooping' in mo:
         return 'dead'
     a = req.split(' ')
